@@ -406,6 +406,30 @@ func runHistory(c *Ctx, caseIdx int, rng *rand.Rand, o *HistOpts) *HistRun {
 		zeroHash := strings.Repeat("0", 64)
 		lostGenesis := int64(0)
 		for _, df := range diffStates(so.Expected, obs) {
+			if (df.Area == "reward" || df.Area == "reward.detail") && so.RewardRange != nil {
+				// warm-up: accept any issuance inside the admissible range (see model)
+				eo, oo := so.Expected.Rewards[df.Key], obs.Rewards[df.Key]
+				ec, oc := new(big.Int), new(big.Int)
+				if eo != nil {
+					ec = eo.Cumulated
+				}
+				if oo != nil {
+					oc = oo.Cumulated
+				}
+				mi := new(big.Int)
+				if so.ModelIssued[df.Key] != nil {
+					mi = so.ModelIssued[df.Key]
+				}
+				obsIssued := new(big.Int).Add(new(big.Int).Sub(oc, ec), mi) // what the implementation issued to this owner in this block
+				rg, ok := so.RewardRange[df.Key]
+				if !ok {
+					rg = [2]*big.Int{new(big.Int), new(big.Int)}
+				}
+				if obsIssued.Cmp(rg[0]) >= 0 && obsIssued.Cmp(rg[1]) <= 0 {
+					c.Count("warm-up-reward-differences-inside-admissible-range", 1)
+					continue
+				}
+			}
 			if (df.Area == "proposal" || df.Area == "frozenprop") && so.Ambiguous[df.Key] {
 				c.Count("ambiguous-proposal-states-skipped", 1)
 				continue
